@@ -1,6 +1,7 @@
 package props
 
 import (
+	"os"
 	"go/types"
 	"fmt"
 	"sort"
@@ -268,6 +269,11 @@ func compareTable(c *fw.Ctx, rule, what string, fn *ssa.Function, resIdx int, va
 	})
 	t.SplitBoolValues(func(atom string) bool { _, ok := env0(atom); return ok })
 	c.SawFn(fw.FuncName(fn))
+	if dbg := os.Getenv("GMSL_DEBUG_TABLE"); dbg != "" && strings.Contains(what, dbg) {
+		for _, r := range t.Rows {
+			fmt.Fprintf(os.Stderr, "ROW %s => %s\n    %s\n", c.P.Pos(fw.InstrPos(r.Ret)), rowValue(r), r.Cond.String())
+		}
+	}
 	if ip.free != nil {
 		freeNames := map[string]string{}
 		for _, a := range t.Atoms() {
